@@ -105,6 +105,8 @@ type sim struct {
 	expectedPV uint32
 	auxNonce   uint64
 	hasAux     bool
+	auxPeer    *peer.Peer    // auxiliary peer whose version write is held in flight
+	auxConn    *simconn.Conn
 
 	waiterStarted bool
 	waiterDone    atomic.Bool
@@ -155,6 +157,7 @@ func run(r *simkit.Run) {
 	s.drawKnobs()
 	s.setup()
 	s.mainLoop()
+	s.releaseAux()
 	s.finish()
 }
 
@@ -351,6 +354,14 @@ func (s *sim) makeAuxNonce() {
 	}
 	ac := simconn.New(&net.TCPAddr{IP: net.IPv4(10, 0, 0, 1), Port: 18556},
 		&net.TCPAddr{IP: net.IPv4(10, 0, 0, 9), Port: 8333}, 0)
+	// Sometimes the auxiliary peer's version message is already on the wire
+	// while its Write call has not returned yet (a slow writer): the process
+	// must recognise its own nonce from the moment the bytes can be seen.
+	inFlight := s.r.C.Bool(400, "aux-write-in-flight")
+	if inFlight {
+		ac.HoldWrites(2) // a wire message is written as header, then payload
+		s.r.FaultEnabled("self_version_write_in_flight")
+	}
 	ap.AssociateConnection(ac)
 	synctest.Wait()
 	msgs, _ := splitStream(ac.Written())
@@ -361,8 +372,34 @@ func (s *sim) makeAuxNonce() {
 			}
 		}
 	}
+	if inFlight && s.hasAux {
+		s.r.Fault("self_version_write_in_flight")
+		s.auxPeer, s.auxConn = ap, ac
+		return
+	}
+	ac.ReleaseWrites()
 	ap.Disconnect()
 	synctest.Wait()
+}
+
+// releaseAux ends the auxiliary peer whose version write was held in flight.
+func (s *sim) releaseAux() {
+	if s.auxPeer == nil {
+		return
+	}
+	s.auxConn.ReleaseWrites()
+	// the auxiliary peer is not the system under test: its Disconnect (called
+	// from the driver goroutine) must not be parked at an armed yield site
+	s.y.mu.Lock()
+	saved := s.y.armed
+	s.y.armed = map[string]bool{}
+	s.y.mu.Unlock()
+	s.auxPeer.Disconnect()
+	synctest.Wait()
+	s.y.mu.Lock()
+	s.y.armed = saved
+	s.y.mu.Unlock()
+	s.auxPeer, s.auxConn = nil, nil
 }
 
 // ownNonce returns a nonce the process under test has sent in a version
@@ -1014,6 +1051,7 @@ func (s *sim) cleanup() {
 		return
 	}
 	s.cleaned = true
+	s.releaseAux()
 	s.y.shutdown(true)
 	if s.p != nil {
 		s.p.Disconnect()
